@@ -54,7 +54,7 @@ CONTRACTS = [
                          "VersionIndex.create_or_load": "VersionIndex.create_or_load(archive)", "Path.relative_to": "Path.relative_to(archive)"},
              locals={"tasks_to_archive": "Opt[List[TaskIdentifier]#toarch]"},
              requires=[C("paths_not_chosen_yet", "not g_arch_paths_known")],
-             modifies=["g_arch_index_path", "g_arch_out_path", "g_arch_paths_known", "g_entries", "$alloc", "SqliteConnection.in_transaction", "SqliteConnection.g_commits",
+             modifies=["g_root_found", "g_arch_index_path", "g_arch_out_path", "g_arch_paths_known", "g_entries", "$alloc", "SqliteConnection.in_transaction", "SqliteConnection.g_commits",
                        "ConductorError.extra_context_set", "ConductorError.file_context_set"],
              ensures=[C("project_index_only_read", "forall(v, 'VersionIndex', implies(allocated(v) and old(allocated(v._conn)), v._conn.g_commits == old(v._conn.g_commits)"
                                                    " and v._conn.in_transaction == old(v._conn.in_transaction)))", "C11")],
@@ -63,5 +63,8 @@ CONTRACTS = [
              ghost=[Ghost("assert allocated(ctx._version_index) and allocated(ctx._version_index._conn), 'hint_the_project_index_exists_before_the_archive_index'",
                           after="ctx = Context.from_cwd()"),
                     Ghost("g_arch_out_path = output_archive_path", after="output_archive_path = handle_output_path(ctx, args.output)"),
-                    Ghost("g_arch_index_path = archive_index_path\ng_arch_paths_known = True", after="archive_index_path = pathlib.Path(ctx.output_path, ARCHIVE_VERSION_INDEX)")]),
+                    Ghost("g_arch_index_path = archive_index_path\ng_arch_paths_known = True", after="archive_index_path = pathlib.Path(ctx.output_path, ARCHIVE_VERSION_INDEX)"),
+                    # a named task whose closure has nothing archivable must not fall through to "archive everything"
+                    Ghost("assert tasks_to_archive is None or seq_len(some(tasks_to_archive)) > 0, 'an_empty_selection_is_never_handed_on_as_no_selection'",
+                          before="total_entry_count = ctx.version_index.copy_entries_to(...")]),
 ]
